@@ -34,7 +34,7 @@ LEVEL_NOTE = "Trusted: numpy.linalg / vlib.linear.expm for the analytic oracle; 
 def budget(tier: str) -> dict:
     if tier == "quick":
         return {"examples": 240}
-    return {"examples": 960, "shards": 16}
+    return {"examples": 960, "shards": 16, "fuzz_seconds": 45}
 
 
 _lograte = st.one_of(
